@@ -559,6 +559,20 @@ def main():
         m2fails, m2_stats = m2_phase(pid, tier, seed)
         fails.extend(m2fails)
 
+    if pid == "C19":
+        # the DOT grammar of the model (DotSyntax.lean) must accept the pictures dig's own test-suite keeps as golden files
+        import glob as _glob
+        repo_dir = os.environ.get("VERIF_REPO", "/repo")
+        drv = runner.Proc([runner.DRIVER])
+        nfix = 0
+        for f in sorted(_glob.glob(os.path.join(repo_dir, "testdata", "*.dot"))):
+            ans = drv.ask(json.dumps({"kind": "dotparse", "text": open(f).read()}, separators=(",", ":")))
+            nfix += 1
+            if not (ans.get("lex") and ans.get("parse")):
+                fails.append({"kind": "correspondence", "descr": "K-dottext: the DOT lexer/parser of the model rejects dig's golden file %s" % os.path.basename(f),
+                              "program": {"kind": "dotparse", "text": open(f).read()}})
+        drv.close()
+        log("K-dottext: %d golden .dot files of /repo/testdata accepted by the model's DOT lexer and parser" % nfix)
     n_own = N_PROGRAMS[tier]
     n = n_own + N_MIXED[tier]
     ntw = N_TWINS[tier] if pid in ("C06", "C14", "C16", "C17") else 0
